@@ -196,8 +196,27 @@ def positional_cases(maxlen):
                 yield (base, True, list(seq) + [(52, 0)])
 
 
+def padded_cases(maxlen):
+    """field values that differ only by surrounding blanks are DIFFERENT values: every entry point must store, find,
+    remove and replace exactly the rule it was given (memory only: the bundled adapters trim on load by design, C10)"""
+    A = mgmt.ATOMS.a
+    rs = [[A("eve"), A("data1"), A("read")], [A("eve "), A("data1"), A("read")], [A(" eve"), A("data1"), A("read")],
+          [A("eve"), A("data1 "), A("read")]]
+    alpha = [(1, 0, r) for r in rs] + [(3, 0, r) for r in rs[:3]] + [(2, 0, [rs[1], rs[3]]), (4, 0, [rs[0], rs[2]]),
+                                                                    (6, rs[0], rs[1]), (6, rs[2], rs[3]), (13, A("eve "), [A("data1"), A("read")])]
+    for n in range(1, maxlen + 1):
+        for seq in itertools.product(alpha, repeat=n):
+            ops = []
+            for o in seq:                     # every mutating call is followed by reads of the store
+                ops += [o, (52, 0)]
+            yield ([], False, ops)
+
+
 def run(chk, n_random, exh_len):
     rng = chk.rng
+    pad = list(padded_cases(3))
+    mgmt.run_cases(chk, mgmt.KINDS["acl"].with_(adapter=False), pad, spec_check, label="padded-names-len<=3")
+    chk.extra.setdefault("strata", {})["padded_names_len<=3"] = len(pad)
     pc = list(positional_cases(4))
     mgmt.run_cases(chk, mgmt.KINDS["acl"], pc, spec_check, label="positional-len<=4")
     chk.extra.setdefault("strata", {})["positional_acl_len<=4"] = len(pc)
